@@ -13,7 +13,9 @@ import vlib, lang, factlib, ugen
 from vlib import tlc, expect_holds, ToolError
 
 LEVEL = "model_checking"
-TIERS = {"quick": dict(queries=1500), "thorough": dict(queries=6000)}
+TIERS = {"quick": dict(queries=1500, syntax=500), "thorough": dict(queries=6000, syntax=6000)}
+# characters of the strings whose syntax dump is compared (as C12's alphabet)
+WIDE = list("0019.eE+-*/^%(){}, \t atomkZ'_\"=#x") + ["°", "é", "日", "😀", "\u00a0", "\u2003", "μ", "Ω", "\n", "to", " to ", "**", "1.5", "round(", "{a b}"]
 
 
 def generate(rnd, phrases, n):
@@ -109,13 +111,14 @@ def run(chk):
                       {"kind": "cli", "text": rec.get("text"), "mode": rec.get("mode"), "library_results": rec.get("results"), "library_descriptions": rec.get("descs"),
                        "stdout": rec.get("stdout"), "stderr": rec.get("stderr"), "exit": rec.get("exit"),
                        "what": "standard output of the binary is not the composition of the library's results the specification prescribes"})
+    syntax_dumps(chk, rnd, queries, p, np_, sp_)
     recs = vlib.read_ndjson(out)
     for r in recs:
         kinds = {x["k"] for x in r["results"]}
         if len(r["results"]) >= 2 or (r["results"] and r["results"][0]["k"] == "val" and r["results"][0]["unit_plural"]):
             chk.nontrivial([r["mode"], r["text"]])
     chk.cov["exhaustive"] = False
-    chk.cov["rule"] = ("one evaluation = one run of the real binary (modes default / --exact / --describe / the flag behind the query, in rotation) compared with the library's in-process results; "
+    chk.cov["rule"] = ("one evaluation = one run of the real binary (modes default / --exact / --describe / the flag behind the query, in rotation; --syntax in a pass of its own) compared with the library's in-process results; "
                        "queries: numeric expressions, quantities over the whole vocabulary, fact phrases, comma-separated lists with values and errors, "
                        "pluralisable and denominator-only units, malformed input; non-trivial = >= 2 results or a value with a unit, distinct by (mode, text)")
     for r in recs[:3]:
@@ -124,13 +127,41 @@ def run(chk):
                         "superscript powers, order and separators of a compound unit are composed by the specification (UnitDisplay.tla)", "the binary is run with NO_COLOR=1 and a private data directory"]
 
 
+def syntax_dumps(chk, rnd, queries, p, np_, sp_):
+    """`any --syntax`: the dump must be the tree Parser.tla builds from Lexer.tla's tokens (Syntax.tla), followed by the
+    results as in default mode.  The dump is not part of C19's statement: a different dump is reported as drift; the
+    result lines behind it are C19's."""
+    qs = [q for k, q in enumerate(queries) if k % 4 == 0][:p["syntax"] // 2]
+    while len(qs) < p["syntax"]:
+        qs.append("".join(rnd.choice(WIDE) for _ in range(rnd.randint(1, 24))))
+    qs += ["", " ", "(1)(2)", "2 (3)", "1 +", "((1)", "a \"b\" \\ c", "1\t+\n2", "\r", "\x0b1", "{speed of light} / 2", "f(1,,2)", "1 to", "'"]
+    w = vlib.workdir("c19-syntax")
+    inp, out = os.path.join(w, "queries.ndjson"), os.path.join(w, "rec.ndjson")
+    vlib.write_ndjson(inp, qs)
+    vlib.conform(["c19-record", "--in", inp, "--out", out, "--any", vlib.conform_bin("release", "any"), "--ids", lang.IDS, "--mode", "syntax"], timeout=7200)
+    res = lang.validate(chk, out, "c19-syntax-val", module="Trace_Cli", label="syntax dumps of the binary", chunk=400, env={"NAMES": np_, "SYMS": sp_})
+    chk.evals(res.records)
+    chk.cov["syntax_dumps_compared"] = res.records
+    for m in res.mismatches:
+        rec = m["rec"] or {}
+        if "syntax-dump" in m["problems"]:
+            chk.drift("any --syntax %r: the dump is not the tree of the specification: %s" % (rec.get("text"), rec.get("stdout", [])[:6]))
+        else:
+            chk.violation("any --syntax %r: %s" % (rec.get("text"), ",".join(m["problems"])),
+                          {"kind": "cli", "text": rec.get("text"), "mode": "syntax", "library_results": rec.get("results"), "stdout": rec.get("stdout"),
+                           "stderr": rec.get("stderr"), "exit": rec.get("exit"),
+                           "what": "the lines behind the syntax dump are not the library's results as the specification composes them"})
+    for r in vlib.read_ndjson(out):
+        if len(r["stdout"]) >= 4:
+            chk.nontrivial(["syntax", r["text"]])
+
+
 def replay(chk, case):
     vlib.build_harness("release")
     w = vlib.workdir("c19-replay")
     inp, out = os.path.join(w, "queries.ndjson"), os.path.join(w, "rec.ndjson")
-    i = {"default": 0, "exact": 1, "describe": 2, "describe_after": 3}[case["mode"]]
-    vlib.write_ndjson(inp, ["1"] * i + [case["text"]])
-    vlib.conform(["c19-record", "--in", inp, "--out", out, "--any", vlib.conform_bin("release", "any"), "--ids", lang.IDS, "--modes4"])
+    vlib.write_ndjson(inp, [case["text"]])
+    vlib.conform(["c19-record", "--in", inp, "--out", out, "--any", vlib.conform_bin("release", "any"), "--ids", lang.IDS, "--mode", case["mode"]])
     np_, sp_, _ = unit_names(chk, "c19-replay-names")
     res = lang.validate(chk, out, "c19-replay-val", module="Trace_Cli", label="replay", env={"NAMES": np_, "SYMS": sp_})
     for m in res.mismatches:
